@@ -642,6 +642,10 @@ func (p *Process) handleOutput(pipe io.ReadCloser, output string, handler func(m
 		line, err := reader.ReadString('\n')
 		if err != nil {
 			if err == io.EOF {
+				// the last line may come without a trailing newline
+				if len(line) > 0 {
+					handler(line)
+				}
 				break
 			}
 			var pathErr *os.PathError
